@@ -231,9 +231,13 @@ def fbKey (e : Item × Option Int) : Nat × Nat :=
 
 def keyLe (a b : Nat × Nat) : Bool := a.1 < b.1 || (a.1 = b.1 && a.2 ≤ b.2)
 
+def keyLt (a b : Nat × Nat) : Bool := a.1 < b.1 || (a.1 = b.1 && a.2 < b.2)
+
+/-- insertion that keeps `x` BEFORE the entries with an equal key: `sortByFeedback` inserts the entries
+from the right, so entries with equal keys keep their original order (Python's `sorted` is stable). -/
 def insertSorted (x : Item × Option Int) : Hist → Hist
   | [] => [x]
-  | y :: ys => if keyLe (fbKey y) (fbKey x) then y :: insertSorted x ys else x :: y :: ys
+  | y :: ys => if keyLt (fbKey y) (fbKey x) then y :: insertSorted x ys else x :: y :: ys
 
 /-- `sorted(history, key=feedback_order)` (stable). -/
 def sortByFeedback : Hist → Hist
